@@ -990,19 +990,20 @@ fn run_record(bin: &str, base: &Path, name: &str, rec: &Value, rng: &mut Rng, st
     }
     let mut conns_out = vec![];
     let mut counter = 0usize;
+    let mut dead_streak = 0usize;
     let empty = vec![];
     for (ci, conn) in rec["conns"].as_array().unwrap_or(&empty).iter().enumerate() {
         let steps = conn.as_array().unwrap_or(&empty);
         // a `sat` step opens its own connections (the workers must be held before the request arrives)
         let first_op = steps.first().map(|x| x["op"].as_str().unwrap_or("")).unwrap_or("");
-        let mut stream = if first_op == "sat" { None } else { Some(connect(srv.addr)?) };
+        let mut stream = if first_op == "sat" || dead_streak >= 4 { None } else { Some(connect(srv.addr)?) };
         let mut leftover = vec![];
         let mut closed = false;
         let mut steps_out = vec![];
         for (si, step) in steps.iter().enumerate() {
             counter += 1;
             st.steps += 1;
-            if closed {
+            if closed || dead_streak >= 4 {
                 st.skipped += 1;
                 if step.get("reached").and_then(|x| x.as_bool()) == Some(true) {
                     st.mismatches += 1;
@@ -1021,6 +1022,13 @@ fn run_record(bin: &str, base: &Path, name: &str, rec: &Value, rng: &mut Rng, st
             };
             let o = run_step(&srv, &cfg, &mut stream, &mut leftover, step, counter, &script)?;
             closed = o.closed;
+            // a server that has stopped answering (every worker wedged) is not asked dozens of times more, each time up
+            // to the read deadline: the rest of the session is recorded as skipped (and reported, where an answer was due)
+            if o.cls.starts_with("other:no-response") || o.cls.starts_with("other:upgrade-neither") {
+                dead_streak += 1;
+            } else {
+                dead_streak = 0;
+            }
             *st.by_class.entry(o.cls.split(':').next().unwrap_or("").to_string()).or_insert(0) += 1;
             if o.cls == "proxied" {
                 st.proxied += 1;
